@@ -145,7 +145,7 @@ def check(repo, col, tier):
     col.rule("R-C01-scheme", "solver formulas and solver_kwargs", 10)
     col.rule("R-C01-refuse", "unsupported models / unknown solver names are refused", 3)
     col.rule("R-C01-conductances", "axial conductances entering the matrix: roles, textbook form, branch-point weights", 6)
-    col.rule("R-C01-merge", "the level schedule of a network contains every level of every cell", 2)
+    col.rule("R-C01-merge", "the level schedule of a network contains every level of every cell", 1)
     from . import cable
     cable.check_axial(repo, col, {"roles": "R-C01-conductances", "oracle": "R-C01-conductances",
                                   "kirchhoff": "R-C01-conductances", "cap": "R-C01-conductances"})
@@ -331,43 +331,48 @@ def _merge(repo, col, R=None):
     r = ex.returns[-1] if ex.returns else None
     if r is None:
         raise AnalysisError("merge_cells has no return")
-    # idiom 1: comprehension / loop over zip(*ps)  -> min length (truncates)
-    zipstar = T.find(r, lambda x: x.op == "call" and x.name == "zip" and any(a.op == "star" for a in x.args))
-    longest = T.find(r, lambda x: (x.op in ("call", "mcall")) and x.name == "zip_longest")
-    rng = None
-    for n in walk_no_nested(fi.node):
-        if isinstance(n, ast.For) and isinstance(n.iter, ast.Call) and unparse(n.iter.func) == "range":
-            body_txt = unparse(n)
-            if "append" in body_txt and "concatenate" in body_txt:
-                rng = n
+    # all terms of the function (return value, stored values, guards): the building blocks are looked for wherever they are,
+    # so nested loops with append and comprehensions are treated alike
+    terms = list(ex.returns)
+    for s_ in ex.stores:
+        terms += [t_ for t_ in (s_.value, s_.key) if t_ is not None] + list(s_.guards)
+    find = lambda pred: next((x for t_ in terms for x in t_.walk() if pred(x)), None)
+    zipstar = find(lambda x: x.op == "call" and x.name == "zip" and any(a.op == "star" for a in x.args))
+    longest = find(lambda x: (x.op in ("call", "mcall")) and x.name == "zip_longest")
     if zipstar is not None and longest is None:
         col.bad(R, fi, "merge_cells: number of merged levels",
                 "the per-cell level lists are merged with zip(*...), which stops at the shallowest cell: the deeper levels "
                 "of deeper cells are dropped from the schedule and their branches are never solved", node=zipstar.node or fi.node)
         return
-    if rng is not None:
-        bound = ex.term(rng.iter.args[-1])
-        is_max = bound.op == "call" and bound.name == "max" and T.find(bound, lambda x: x.op == "call" and x.name == "len") is not None
-        is_min = bound.op == "call" and bound.name == "min"
-        col.add(R, fi, "merge_cells: number of merged levels", "DISCHARGED" if is_max else ("VIOLATED" if is_min else "UNDECIDED"),
-                "range(max number of levels over the cells)" if is_max else
-                f"the merge loop runs over {bound.short(60)} levels; it must cover the deepest cell", node=rng)
-        # inner guard: a cell contributes level i iff it has one
-        guards = [n for n in ast.walk(rng) if isinstance(n, ast.If)]
-        ok = any(isinstance(g.test, ast.Compare) and "len(" in unparse(g.test) and isinstance(g.test.ops[0], (ast.Gt, ast.Lt, ast.GtE, ast.LtE))
-                 for g in guards)
-        tv = rng.target.id if isinstance(rng.target, ast.Name) else "i"
-        gtxt = [unparse(g.test).replace(" ", "") for g in guards]
-        good = any(t in (f"len(p)>{tv}", f"{tv}<len(p)") for t in gtxt)
-        col.add(R, fi, "merge_cells: a cell contributes level i iff it has a level i",
-                "DISCHARGED" if good else ("UNDECIDED" if ok or not guards else "VIOLATED"),
-                f"guard {gtxt}" if good else f"guards {gtxt} do not select the cells with more than i levels", node=rng)
-        return
     if longest is not None:
         col.ok(R, fi, "merge_cells: number of merged levels", "zip_longest covers the deepest cell", node=fi.node)
         col.unk(R, fi, "merge_cells: a cell contributes level i iff it has a level i", "fill values of zip_longest not analysed", node=fi.node)
         return
-    col.unk(R, fi, "merge_cells: number of merged levels", "merge idiom not recognised", node=fi.node)
+    # the level index: an element of range(<bound>) used to subscript a per-cell list
+    lvl = find(lambda x: x.op == "elem" and x.args[0].op == "call" and x.args[0].name == "range" and len(x.args[0].args) == 1 and
+               T.find(x.args[0].args[0], lambda y: y.op == "call" and y.name == "len") is not None)
+    if lvl is None:
+        col.unk(R, fi, "merge_cells: number of merged levels", "merge idiom not recognised (no level index over range(...))", node=fi.node)
+        return
+    bound = lvl.args[0].args[0]
+    is_max = bound.op == "call" and bound.name == "max"
+    is_min = bound.op == "call" and bound.name == "min"
+    col.add(R, fi, "merge_cells: number of merged levels", "DISCHARGED" if is_max else ("VIOLATED" if is_min else "UNDECIDED"),
+            "range(max number of levels over the cells)" if is_max else
+            f"the merge runs over {bound.short(60)} levels; it must cover the deepest cell", node=lvl.node or fi.node)
+    # a cell contributes level i iff it has one:  len(<cell's levels>) > i   (as loop guard or comprehension condition)
+    cond = find(lambda x: x.op == "cmp" and x.name in (">", "<", ">=", "<=") and len(x.args) == 2 and
+                any(a.key() == lvl.key() for a in x.args) and
+                any(a.op == "call" and a.name == "len" for a in x.args))
+    good = False
+    if cond is not None:
+        l_left = cond.args[0].op == "call" and cond.args[0].name == "len"
+        good = (cond.name == ">" and l_left) or (cond.name == "<" and not l_left)
+    col.add(R, fi, "merge_cells: a cell contributes level i iff it has a level i",
+            "DISCHARGED" if good else ("UNDECIDED" if cond is None else "VIOLATED"),
+            "len(levels of the cell) > i" if good else
+            (f"the condition `{cond.short(60)}` does not select exactly the cells with more than i levels" if cond is not None else
+             "no condition on the number of levels of a cell found"), node=fi.node)
 
 
 def _dimension(repo, col, R=None):
@@ -1072,6 +1077,28 @@ def _refuse(repo, col):
 # level bookkeeping and edge tables (three-valued shape rules on small helper functions)
 
 
+def consecutive_rank(repo, col, R):
+    """remap_to_consecutive(parents) numbers the distinct parent branches; compute_children_and_parents pairs that number
+    with np.unique(parents), i.e. with the SORTED distinct parents.  The numbering must therefore be the rank in sorted
+    order (inverse indices of unique); numbering by first appearance (pd.factorize, dict insertion order) attaches children
+    to another parent's branch point whenever the parents do not first appear in ascending order."""
+    fi = repo.func("jaxley/utils/cell_utils.py", "remap_to_consecutive")
+    ex = idxm.expander(repo, fi)
+    r = ex.returns[-1] if ex.returns else None
+    if r is None:
+        raise AnalysisError("remap_to_consecutive has no return")
+    uq = T.find(r, lambda x: x.op == "mcall" and x.name == "unique")
+    inv = uq is not None and uq.kw.get("return_inverse") is not None and uq.kw["return_inverse"].op == "const" and uq.kw["return_inverse"].name is True
+    is_inverse = inv and T.find(r, lambda x: x.op == "item" and x.name == 1 and x.args[0] is uq) is not None
+    first_seen = T.find(r, lambda x: x.op == "mcall" and x.name in ("factorize",)) is not None
+    alt_sorted = T.find(r, lambda x: x.op == "mcall" and x.name == "searchsorted") is not None
+    col.add(R, fi, "remap_to_consecutive numbers the values by their rank in sorted order",
+            "DISCHARGED" if (is_inverse or alt_sorted) else ("VIOLATED" if first_seen else "UNDECIDED"),
+            "inverse indices of unique(arr)" if (is_inverse or alt_sorted) else
+            f"remap_to_consecutive returns {r.short(100)}: values are numbered by first appearance, but the callers pair the numbers with the "
+            f"sorted np.unique(parents): children attach to the wrong branch point for parents such as [-1, 0, 0, 2, 1]", node=fi.node)
+
+
 def _levels(repo, col):
     R = "R-C01-levels"
     CUF = "jaxley/utils/cell_utils.py"
@@ -1176,6 +1203,7 @@ def _levels(repo, col):
                       f"rows are selected by `{flt.short(80)}` for levels {lo}..{hi} (exclusive), indexed by "
                       f"{'the parent branches' if by_parent else lv_side.args[1].short(30)}: the parents eliminated together with the children "
                       f"of level l+1 must be the branches of level l", node=fi.node)
+    consecutive_rank(repo, col, R)
     # group_and_sum: additive scatter from zeros
     fi = repo.func(CUF, "group_and_sum")
     ex = idxm.expander(repo, fi)
